@@ -482,9 +482,17 @@ func judgeStatic(w *core.W, fx *fixture, c *staticCase, classes func(string)) {
 		f.Use(flamego.Static(opts))
 	}
 	nextRan := false
-	f.NotFound(func() { nextRan = true })
+	// the rest of the chain answers on its own: whatever Static left behind (a header, a before-function) would
+	// show in that answer
+	chain := func(x flamego.Context) {
+		nextRan = true
+		x.ResponseWriter().Header().Set("X-Chain", "1")
+		x.ResponseWriter().WriteHeader(418)
+		_, _ = x.ResponseWriter().Write([]byte("CHAIN"))
+	}
+	f.NotFound(chain)
 	for _, m := range routerMethods {
-		f.Route(m, "/{**}", []flamego.Handler{func() { nextRan = true }})
+		f.Route(m, "/{**}", []flamego.Handler{chain})
 	}
 	want := staticOracle(fx, c)
 	hdr := http.Header{}
@@ -518,6 +526,18 @@ func judgeStatic(w *core.W, fx *fixture, c *staticCase, classes func(string)) {
 		f.ServeHTTP(spy, &http.Request{Method: c.Method, URL: &url.URL{Path: string(c.Path), RawQuery: c.Query}, Header: hdr, RequestURI: string(c.Path)})
 	}()
 	o.status, o.body, o.hdr, o.nextRan = spy.status, string(spy.body), spy.h, nextRan
+	if nextRan && o.pan == nil {
+		// the chain's own answer, and nothing else
+		wantBody := "CHAIN"
+		if c.Method == "HEAD" {
+			wantBody = ""
+		}
+		if o.status != 418 || o.body != wantBody || len(o.hdr) != 1 || o.hdr.Get("X-Chain") != "1" {
+			w.Violate("static", c, fmt.Sprintf("Static stayed silent and the rest of the chain answered (418 \"CHAIN\", one header), but the response is status %d body %q headers %v: Static must leave nothing behind", o.status, clip(o.body), o.hdr))
+			return
+		}
+		o.status, o.body, o.hdr = 0, "", http.Header{}
+	}
 	if msg := staticVerdict(fx, c, want, o); msg != "" {
 		w.Violate("static", c, msg)
 		return
@@ -592,12 +612,61 @@ func staticClass(fx *fixture, c *staticCase, want staticOutcome) string {
 // content of a file that is there).
 type volatileCase struct {
 	Name   string `json:"file_name"`
-	Then   string `json:"then"` // removed | becomes-directory | rewritten
+	Then   string `json:"then"` // removed | becomes-directory | rewritten | root-relinked (Directory is a symbolic link that is pointed at another release after Static() was called)
 	Prefix string `json:"prefix,omitempty"`
 	IOFS   bool   `json:"filesystem_is_an_io_fs,omitempty"`
 }
 
+// judgeRelinked: the configured Directory is a symbolic link that is pointed at another release after the
+// middleware was created (an atomic deploy): the configured directory is what the link denotes now.
+func judgeRelinked(w *core.W, fx *fixture, c *volatileCase) {
+	w.Eval()
+	base := filepath.Join(fx.root, "rel-"+c.Name)
+	defer os.RemoveAll(base)
+	for _, rel := range []string{"A", "B"} {
+		_ = os.MkdirAll(filepath.Join(base, rel), 0o755)
+		_ = os.WriteFile(filepath.Join(base, rel, "app.js"), []byte("INSIDE<release "+rel+" app.js>"), 0o644)
+	}
+	_ = os.WriteFile(filepath.Join(base, "A", "legacy.css"), []byte("OUTSIDE-MARKER once the link has moved"), 0o644)
+	link := filepath.Join(base, "current")
+	if err := os.Symlink("A", link); err != nil {
+		w.R.Inconclusive("cannot create a symbolic link in the fixture: " + err.Error())
+		return
+	}
+	f := flamego.NewWithLogger(io.Discard)
+	f.Use(flamego.Static(flamego.StaticOptions{Directory: link, Prefix: c.Prefix}))
+	f.NotFound(func() (int, string) { return 418, "CHAIN" })
+	pre := ""
+	if c.Prefix != "" {
+		pre = "/" + strings.Trim(c.Prefix, "/")
+	}
+	get := func(p string) (int, string) {
+		spy := &retSpy{h: http.Header{}}
+		f.ServeHTTP(spy, &http.Request{Method: "GET", URL: &url.URL{Path: pre + p}, Header: http.Header{}, RequestURI: pre + p})
+		return spy.status, string(spy.body)
+	}
+	if st, body := get("/app.js"); st != 200 || body != "INSIDE<release A app.js>" {
+		w.Violate("static-volatile", c, fmt.Sprintf("before the link moved: status %d body %q", st, clip(body)))
+		return
+	}
+	_ = os.Remove(link)
+	_ = os.Symlink("B", link)
+	if st, body := get("/app.js"); st != 200 || body != "INSIDE<release B app.js>" {
+		w.Violate("static-volatile", c, fmt.Sprintf("the configured directory is a link that now points at release B: /app.js answered status %d body %q", st, clip(body)))
+		return
+	}
+	if st, body := get("/legacy.css"); st != 418 {
+		w.Violate("static-volatile", c, fmt.Sprintf("legacy.css exists only in the release the link no longer points at: status %d body %q (want: nothing written, chain answers)", st, clip(body)))
+		return
+	}
+	w.Count("volatile:root-relinked")
+}
+
 func judgeVolatile(w *core.W, fx *fixture, c *volatileCase) {
+	if c.Then == "root-relinked" {
+		judgeRelinked(w, fx, c)
+		return
+	}
 	w.Eval()
 	full := filepath.Join(fx.pub, c.Name)
 	_ = os.RemoveAll(full)
@@ -682,11 +751,11 @@ func runC16(r *core.Run) {
 		judgeStatic(w, fx, c, nil)
 	})
 	r.Parallel("volatile", r.N(1500, 60000), func(w *core.W, rng *rand.Rand, i int) {
-		c := &volatileCase{Name: fmt.Sprintf("vol-%d-%d.txt", w.ID, i), Then: []string{"removed", "becomes-directory", "rewritten"}[rng.Intn(3)], Prefix: []string{"", "static", "/s/t/"}[rng.Intn(3)], IOFS: rng.Intn(3) == 0}
+		c := &volatileCase{Name: fmt.Sprintf("vol-%d-%d.txt", w.ID, i), Then: []string{"removed", "becomes-directory", "rewritten", "root-relinked"}[rng.Intn(4)], Prefix: []string{"", "static", "/s/t/"}[rng.Intn(3)], IOFS: rng.Intn(3) == 0}
 		w.Begin("volatile", c)
 		judgeVolatile(w, fx, c)
 	})
-	for _, k := range []string{"volatile:removed", "volatile:becomes-directory", "volatile:rewritten"} {
+	for _, k := range []string{"volatile:removed", "volatile:becomes-directory", "volatile:rewritten", "volatile:root-relinked"} {
 		r.GateCounter(k, 100)
 	}
 	for _, k := range []string{"class:traversal-in", "class:traversal-out", "class:look-alike", "class:dir-no-slash", "class:dir-slash", "class:dir-no-index-or-missing", "class:file", "class:missing", "class:NUL", "class:other-method", "outcome:file", "outcome:redirect", "outcome:not-modified", "outcome:silent", "fault:open", "fault:stat", "fault:index-open", "fault:index-stat", "directory-option-unset", "options-slice-overwritten-after-creation", "filesystem:io/fs", "if-none-match:formula-tag-of-a-directory"} {
